@@ -451,6 +451,8 @@ H("conn_datagram_unblock_native", ["C16"], "replay-only", "connection::datagram_
   [("n", "u8")], 4, [], ["Connection::poll_transmit", "Connection::populate_packet", "DatagramState::write", "Connection::poll"], "native replay body of E2 slice query e2_populate_packet_datagram_loop_slice")
 H("conn_close_under_congestion_native", ["C08", "C12"], "replay-only", "connection::close_under_congestion_native",
   [("queued", "bool")], 4, [], ["Connection::close", "Connection::poll_transmit"], "native replay body of E2 slice query e2_poll_transmit_close_not_congestion_blocked_slice; demonstration for finding 14")
+H("conn_first_packet_close_native", ["C08"], "replay-only", "connection::first_packet_close_native",
+  [("x", "u8")], 4, [], ["Connection::handle_first_packet", "Connection::process_decrypted_packet", "Connection::handle_timeout"], "native replay body of E2 query e2_first_packet_close_gets_drain_timer; demonstration for finding 15")
 H("conn_path_response_native", ["C15", "C07"], "replay-only", "connection::path_response_native",
   [("mode", "u8")], 4, [], ["Connection::handle_event", "Connection::process_payload"], "native replay body of E2 slice query e2_path_response_slice")
 H("conn_detect_lost_native", ["C12"], "replay-only", "connection::detect_lost_native",
